@@ -1,4 +1,4 @@
-import LoguruModel.Buffer.Model
+import LoguruModel.Buffer.Layers
 import LoguruModel.Driver
 open Buffer Py
 
@@ -16,6 +16,19 @@ line protocol (one line in, one line out):
   exits <enq> <owner> <flushable> <stoppable> <Q> <call>*  one stream handler
         -> ok <registered> <stopped> <hung> <stops> <pending> <os>
   text <terminator: f|s> <call>                    -> ok <emitted text>
+  crashx <E> <rot> <comp> <ret> <buffering> <mode a|w|x> <delay> <K> <J> <call>*   file sink with explicit open() arguments,
+                                                   watch=True when a call carries the "moved" flag
+  lstream <hasFlush> <hasStaticFlush> <lineBufferingAttr> <writeThroughAttr> <buffered> <lineBuffering> <writeThrough> <K> <call>*
+                                                   stream sink over the LAYERED stream model (no size-driven spill)
+        -> ok <text still in the two layers> <os>
+  exitfx <enq> <owner> <rot> <comp> <ret> <buffering> <mode> <delay> <dead> <Q> <call>*
+  exitsx <enq> <owner> <hasFlush> <hasStaticFlush> <hasStop> <hasStaticStop> <dead> <Q> <call>*
+                                                   dead = "-" or the number of messages the worker wrote before it ended
+
+  kern <hasFlush> <hasStaticFlush> <lineBuffering> <writeThrough> <hasStop> <hasStaticStop>
+        -> ok <flushed after one write 0|1> <stop() calls of StreamSink.stop>
+
+  call = <flags 0..7 = rotDue + 2*moved + 4*poisoned (the record cannot be un-pickled by the worker)>:<kind s|d>:<raw 0|1>:<serialize 0|1>:<body>:<exc>
 
   call = <rotDue 0|1>:<kind s|d>:<raw 0|1>:<serialize 0|1>:<body>:<exc>
 -/
@@ -27,19 +40,31 @@ def decTokFast (tok : String) : Option Str :=
 
 def bit (s : String) : Option Bool := if s = "1" then some true else if s = "0" then some false else none
 
-def parseCall (term : Str) (s : String) : Option Call :=
+/-- a call token: `(poisoned, moved, rotDue, text)`; the first field is 0..7 = rotDue + 2 * moved + 4 * poisoned -/
+def parseCallP (term : Str) (s : String) : Option (Bool × Bool × Call) :=
   match s.splitOn ":" with
   | [r, k, raw, ser, body, exc] =>
-    match bit r, bit raw, bit ser, decTokFast body, decTokFast exc with
-    | some r, some raw, some ser, some body, some exc =>
+    match r.toNat?, bit raw, bit ser, decTokFast body, decTokFast exc with
+    | some n, some raw, some ser, some body, some exc =>
       let kind := if k = "s" then some FormatKind.static else if k = "d" then some FormatKind.dynamic else none
       match kind with
       | some kind =>
-        let m : Msg := { body := body, exc := exc, raw := raw, serialize := ser }
-        some (r, emitText kind term (fun _ => body) m)
+        if n < 8 then
+          let m : Msg := { body := body, exc := exc, raw := raw, serialize := ser }
+          some (n / 4 % 2 == 1, n / 2 % 2 == 1, n % 2 == 1, emitText kind term (fun _ => body) m)
+        else none
       | none => none
     | _, _, _, _, _ => none
   | _ => none
+
+def parseCallX (term : Str) (s : String) : Option (Bool × Call) := (parseCallP term s).map (·.2)
+
+def parseCallsP (term : Str) (l : List String) : Option (List (Bool × Call)) :=
+  l.mapM (fun s => (parseCallP term s).map (fun x => (x.1, x.2.2)))
+
+def parseCall (term : Str) (s : String) : Option Call := (parseCallX term s).map (·.2)
+
+def parseCallsX (term : Str) (l : List String) : Option (List (Bool × Call)) := l.mapM (parseCallX term)
 
 def parseCalls (term : Str) (l : List String) : Option (List Call) := l.mapM (parseCall term)
 
@@ -47,19 +72,64 @@ def encList (l : List Str) : String := " ".intercalate (l.map encTok)
 
 def b01 (b : Bool) : String := if b then "1" else "0"
 
-/-- state of a handler at interpreter exit: the first calls already went through its sink – directly,
-or (enqueue) through the worker thread, which may have ended early; then nobody reads the queue -/
-def atExit (enq own : Bool) (q : Nat) (calls : List Call) (sink0 : Sink) : Handler :=
-  let direct := calls.take (calls.length - q)
-  let queued := calls.drop (calls.length - q)
-  if enq then
-    let (k, unread) := workerRun Gen.workerOps sink0 direct
-    let alive := unread.isEmpty
-    { enqueue := true, owner := own, queue := if alive then queued else [], sink := k,
-      stopped := false, sentinel := false, joined := false, hung := false }
+def parseModeTok (s : String) : Option OpenMode :=
+  if s = "a" then some .append else if s = "w" then some .truncate else if s = "x" then some .exclusive else none
+
+/-- `-` = the worker is alive; `n` = it ended (a sink raised a BaseException) after writing n messages,
+the message it was writing is gone with it -/
+def parseDead (s : String) : Option (Option Nat) := if s = "-" then some none else s.toNat?.map some
+
+/-- state of a handler at interpreter exit, built by running the model's own `Handler.emit` (the
+GENERATED tail) for every call and the worker thread for all but the last `q` messages; a flagged call
+carries a record that cannot be un-pickled by the worker -/
+def atExit (enq own : Bool) (q : Nat) (fcalls : List (Bool × Call)) (sink0 : Sink) (dead : Option Nat) : Handler :=
+  let calls := fcalls.map (·.2)
+  let h0 : Handler := { enqueue := enq, owner := own, queue := [], sink := sink0,
+                        stopped := false, sentinel := false, joined := false, hung := false }
+  let logs := calls.map Ev.log
+  if enq && fcalls.any (·.1) then
+    let h := h0.run logs
+    let items := fcalls.map (fun x => if x.1 then QItem.poison else QItem.msg x.2)
+    let (k, unread) := workerRunQ Gen.workerOps sink0 items
+    -- the loop ended on an item and left others unread (a loop ending on the very last item changes nothing observable)
+    let ended := !unread.isEmpty
+    if ended then { h with sink := k, queue := msgsOf unread, workerDead := true }
+    else { h with sink := k, queue := [] }
   else
-    { enqueue := false, owner := own, queue := [], sink := calls.foldl Sink.write sink0,
-      stopped := false, sentinel := false, joined := false, hung := false }
+  match dead with
+  | none => h0.run (logs ++ List.replicate (if enq then calls.length - q else 0) Ev.worker)
+  | some d =>
+    let h := h0.run (logs ++ List.replicate d Ev.worker)
+    if enq then { h with queue := h.queue.drop 1, workerDead := true } else h
+
+def fileExit (enq own rot comp ret : Bool) (buf : Int) (mode : OpenMode) (delay : Bool) (dead : Option Nat) (q : Nat)
+    (calls : List (Bool × Call)) : String :=
+  let q := if enq then min q calls.length else 0
+  let h : Handler := atExit enq own q calls (.file (FileSink.newWith none rot comp ret buf mode delay)) dead
+  let lg := interpreterExit { handlers := [h], removed := [] }
+  let h' := match lg.removed, lg.handlers with
+    | x :: _, _ => x
+    | [], x :: _ => x
+    | [], [] => h
+  match h'.sink with
+  | .file f => "ok " ++ toString lg.handlers.length ++ " " ++ b01 h'.stopped ++ " " ++ b01 h'.hung ++ " " ++
+      b01 f.file.isSome ++ " " ++ toString f.compressions ++ " " ++ toString f.retentions ++ " " ++
+      encTok f.pendingText ++ " " ++ encList f.disk
+  | _ => "bad-op"
+
+def streamExit (enq own fl sfl hasStop hasStaticStop : Bool) (dead : Option Nat) (q : Nat) (calls : List (Bool × Call)) : String :=
+  let q := if enq then min q calls.length else 0
+  let s0 : Stream := StreamSink.new { os := [], pending := [], lineBuffering := false, closed := false } fl sfl false false
+  let h : Handler := atExit enq own q calls (.stream s0 (Gen.stoppableOf hasStop hasStaticStop fl sfl false false) 0) dead
+  let lg := interpreterExit { handlers := [h], removed := [] }
+  let h' := match lg.removed, lg.handlers with
+    | x :: _, _ => x
+    | [], x :: _ => x
+    | [], [] => h
+  match h'.sink with
+  | .stream s _ n => "ok " ++ toString lg.handlers.length ++ " " ++ b01 h'.stopped ++ " " ++ b01 h'.hung ++ " " ++
+      toString n ++ " " ++ encTok s.file.pending ++ " " ++ encTok s.file.os
+  | _ => "bad-op"
 
 def step (line : String) : String :=
   match line.splitOn " " with
@@ -73,6 +143,17 @@ def step (line : String) : String :=
         | [] => s
       "ok " ++ encTok s.pendingText ++ " " ++ encList s.disk
     | _, _, _, _, _, _, _ => "bad-op"
+  | "crashx" :: e :: rot :: comp :: ret :: buf :: mode :: delay :: k :: j :: rest =>
+    let ex : Option (Option Str) := if e = "~" then some none else (decTokFast e).map some
+    match ex, bit rot, bit comp, bit ret, buf.toInt?, parseModeTok mode, bit delay, k.toNat?, j.toNat?,
+        parseCallsX Gen.fileTerminator rest with
+    | some ex, some rot, some comp, some ret, some buf, some mode, some delay, some k, some j, some calls =>
+      let s := (calls.take k).foldl (fun s c => s.writeW c.1 c.2.1 c.2.2) (FileSink.newWith ex rot comp ret buf mode delay)
+      let s := match calls.drop k with
+        | c :: _ => runPrims s ((writePrimsW c.1 (c.2.1 && s.hasRotation) c.2.2).take j)
+        | [] => s
+      "ok " ++ encTok s.pendingText ++ " " ++ encList s.disk
+    | _, _, _, _, _, _, _, _, _, _ => "bad-op"
   | "stream" :: fl :: sfl :: lba :: wt :: lb :: k :: rest =>
     match bit fl, bit sfl, bit lba, bit wt, bit lb, k.toNat?, parseCalls Gen.streamTerminator rest with
     | some fl, some sfl, some lba, some wt, some lb, some k, some calls =>
@@ -80,37 +161,44 @@ def step (line : String) : String :=
       let s := ((calls.take k).map (·.2)).foldl Stream.sinkWrite s0
       "ok " ++ encTok s.file.pending ++ " " ++ encTok s.file.crash
     | _, _, _, _, _, _, _ => "bad-op"
+  | "lstream" :: fl :: sfl :: lba :: wta :: bu :: lb :: wt :: k :: rest =>
+    match bit fl, bit sfl, bit lba, bit wta, bit bu, bit lb, bit wt, k.toNat?, parseCalls Gen.streamTerminator rest with
+    | some fl, some sfl, some lba, some wta, some bu, some lb, some wt, some k, some calls =>
+      let f0 : Layered := { os := [], bin := [], text := [], buffered := bu, lineBuffering := lb, writeThrough := wt,
+                            closed := false }
+      let s0 : LStream := { file := f0, flushable := Gen.flushableOf fl sfl lba wta }
+      let s := ((calls.take k).map (·.2)).foldl (fun s m => s.sinkWrite m Spill.none) s0
+      "ok " ++ encTok (s.file.bin ++ s.file.text) ++ " " ++ encTok s.file.crash
+    | _, _, _, _, _, _, _, _, _ => "bad-op"
   | "exitf" :: enq :: own :: rot :: comp :: ret :: q :: rest =>
-    match bit enq, bit own, bit rot, bit comp, bit ret, q.toNat?, parseCalls Gen.fileTerminator rest with
-    | some enq, some own, some rot, some comp, some ret, some q, some calls =>
-      let q := if enq then min q calls.length else 0
-      let h : Handler := atExit enq own q calls (.file (FileSink.new none rot comp ret))
-      let lg := interpreterExit { handlers := [h], removed := [] }
-      let h' := match lg.removed, lg.handlers with
-        | x :: _, _ => x
-        | [], x :: _ => x
-        | [], [] => h
-      match h'.sink with
-      | .file f => "ok " ++ toString lg.handlers.length ++ " " ++ b01 h'.stopped ++ " " ++ b01 h'.hung ++ " " ++
-          b01 f.file.isSome ++ " " ++ toString f.compressions ++ " " ++ toString f.retentions ++ " " ++
-          encTok f.pendingText ++ " " ++ encList f.disk
-      | _ => "bad-op"
-    | _, _, _, _, _, _, _ => "bad-op"
+    match bit enq, bit own, bit rot, bit comp, bit ret, q.toNat?, parseCalls Gen.fileTerminator rest,
+        parseMode Gen.fileMode with
+    | some enq, some own, some rot, some comp, some ret, some q, some calls, some mode =>
+      fileExit enq own rot comp ret Gen.fileBuffering mode false none q (calls.map (fun c => (false, c)))
+    | _, _, _, _, _, _, _, _ => "bad-op"
+  | "exitfx" :: enq :: own :: rot :: comp :: ret :: buf :: mode :: delay :: dead :: q :: rest =>
+    match bit enq, bit own, bit rot, bit comp, bit ret, buf.toInt?, parseModeTok mode, bit delay, parseDead dead,
+        q.toNat?, parseCallsP Gen.fileTerminator rest with
+    | some enq, some own, some rot, some comp, some ret, some buf, some mode, some delay, some dead, some q, some calls =>
+      fileExit enq own rot comp ret buf mode delay dead q calls
+    | _, _, _, _, _, _, _, _, _, _, _ => "bad-op"
   | "exits" :: enq :: own :: fl :: stoppable :: q :: rest =>
     match bit enq, bit own, bit fl, bit stoppable, q.toNat?, parseCalls Gen.streamTerminator rest with
     | some enq, some own, some fl, some stoppable, some q, some calls =>
-      let q := if enq then min q calls.length else 0
-      let s0 : Stream := StreamSink.new { os := [], pending := [], lineBuffering := false, closed := false } fl fl false false
-      let h : Handler := atExit enq own q calls (.stream s0 stoppable 0)
-      let lg := interpreterExit { handlers := [h], removed := [] }
-      let h' := match lg.removed, lg.handlers with
-        | x :: _, _ => x
-        | [], x :: _ => x
-        | [], [] => h
-      match h'.sink with
-      | .stream s _ n => "ok " ++ toString lg.handlers.length ++ " " ++ b01 h'.stopped ++ " " ++ b01 h'.hung ++ " " ++
-          toString n ++ " " ++ encTok s.file.pending ++ " " ++ encTok s.file.os
-      | _ => "bad-op"
+      streamExit enq own fl fl stoppable stoppable none q (calls.map (fun c => (false, c)))
+    | _, _, _, _, _, _ => "bad-op"
+  | "exitsx" :: enq :: own :: fl :: sfl :: hs :: shs :: dead :: q :: rest =>
+    match bit enq, bit own, bit fl, bit sfl, bit hs, bit shs, parseDead dead, q.toNat?,
+        parseCallsP Gen.streamTerminator rest with
+    | some enq, some own, some fl, some sfl, some hs, some shs, some dead, some q, some calls =>
+      streamExit enq own fl sfl hs shs dead q calls
+    | _, _, _, _, _, _, _, _, _ => "bad-op"
+  | ["kern", hf, sf, lb, wt, hs, ss] =>
+    match bit hf, bit sf, bit lb, bit wt, bit hs, bit ss with
+    | some hf, some sf, some lb, some wt, some hs, some ss =>
+      let s0 : Stream := StreamSink.new { os := [], pending := [], lineBuffering := false, closed := false } hf sf lb wt
+      let s1 := s0.sinkWrite "m".toList
+      "ok " ++ b01 (s1.file.pending.isEmpty) ++ " " ++ toString (streamStopCalls (Gen.stoppableOf hs ss hf sf lb wt) 0)
     | _, _, _, _, _, _ => "bad-op"
   | ["text", t, c] =>
     let term := if t = "f" then some Gen.fileTerminator else if t = "s" then some Gen.streamTerminator else none
